@@ -9,7 +9,8 @@ ID = "C03"
 LEVEL = "exploration"
 FAMILIES = True
 BUDGET = {"quick": 50, "thorough": 900}
-FLOOR = {"quick": 3000, "thorough": 30000}
+QUICK_CASES = 1400  # generator items in the quick tier (fixed amount of work; BUDGET is then only a safety cap)
+FLOOR = {"quick": 8000, "thorough": 30000}
 TIMEOUT = 120
 REQUIRED_OBS = ["programs_compared", "binding_pairs", "scope_programs", "template_programs", "reserved_kw_checks", "typeerrors_agreed", "nameerrors_agreed"]
 RULE = (
